@@ -6,6 +6,9 @@
 (*        sent to other addresses than the hostile sender in that step         *)
 (*   Probe(u, ok)   after the hostile input a live logged-in session was       *)
 (*        offered a downstream packet and asked for it: ok = it arrived intact *)
+(*   Refusal(gone)  the server refused a request (LNAK, BADLEN, BADCODEC,      *)
+(*        BADFRAG, BADIP): gone = sessions that were established and live      *)
+(*        before it and are not any more - a refused request ends no session   *)
 (* Sanitizer aborts, hangs and server exits are events without any enabled     *)
 (* action (memory safety / bounded time are observed by ASan+UBSan and the     *)
 (* step watchdog of the harness, not specified here).                          *)
@@ -14,5 +17,6 @@ VARIABLE n
 MSInit == n = 0
 Hostile(changed, stray) == Len(changed) = 0 /\ stray = 0 /\ n' = n + 1
 Probe(u, ok) == ok /\ n' = n + 1
+Refusal(gone) == Len(gone) = 0 /\ n' = n + 1
 MSReset == n' = 0
 =============================================================================
